@@ -1,4 +1,4 @@
-CONSTANTS TreeKind = "dotcart"  NP = 3  MaxPer = 2  MaxTotal = 4  Mix = "innersame"  MinDepth = 2
+CONSTANTS TreeKind = "dotcart"  NP = 3  MaxPer = 2  MaxTotal = 4  Mix = "innersame"  MinDepth = 2  MaxDepth = 3
   Tree <- MCTree
   StreamSet <- MCStreams
   Record = FALSE
